@@ -274,4 +274,28 @@ def decode_dfr8 (bs : List Byte) : Option DimRec :=
   | some r => if r.ncomps = 1 then some r else none
   | none => none
 
+/-! ### DFR8getimage into a buffer wider than the image (dfr8.c, `if (xdim > Readrig.descimage.xdim)`)
+
+The image (`h` rows of `w` bytes) is first read contiguously to the start of the caller's buffer; the rows are then
+spread out IN PLACE to the caller's row stride `xdim`, last row first, and inside a row last column first. -/
+
+/-- inner loop `for (x = w - 1; x >= 0; x--) image[off1 + x] = image[off2 + x]` of row `y`; `x` = columns still to do -/
+def spreadRow (w xdim y : Nat) : Nat → List Byte → List Byte
+  | 0, buf => buf
+  | x + 1, buf => spreadRow w xdim y x (buf.set (y * xdim + x) (buf.getD (y * w + x) 0))
+
+/-- outer loop `for (y = h - 1; y > 0; y--)`; the argument is the number of rows not yet in place (row 0 stays) -/
+def spreadRowsFrom (w xdim : Nat) : Nat → List Byte → List Byte
+  | 0, buf => buf
+  | 1, buf => buf
+  | y + 2, buf => spreadRowsFrom w xdim (y + 1) (spreadRow w xdim (y + 1) w buf)
+
+/-- the whole step of `DFR8getimage(…, xdim, ydim, …)` after the image was read -/
+def spreadRows (w h xdim : Nat) (buf : List Byte) : List Byte :=
+  if xdim > w then spreadRowsFrom w xdim h buf else buf
+
+/-- the image area of a buffer with row stride `xdim` -/
+def imageArea (w h xdim : Nat) (buf : List Byte) : List Byte :=
+  (List.range h).flatMap fun r => (buf.drop (r * xdim)).take w
+
 end H4.Codecs
